@@ -210,9 +210,12 @@ class AnnotGen:
         if not self._fresh("def:" + suffix):
             return None
         if not expand:
-            return tag("Def", suffix, self.sp["Def"].path if "Def" in self.sp else None, "def")
-        return group([tag("Def-expand", suffix, self.sp["Def-expand"].path, "def-expand"),
-                      group(self.expansion(d, val), "def-content")], "def-expand-group")
+            t = tag("Def", suffix, self.sp["Def"].path if "Def" in self.sp else None, "def")
+            t["def"], t["val"] = d["name"], val
+            return t
+        t = tag("Def-expand", suffix, self.sp["Def-expand"].path, "def-expand")
+        t["def"], t["val"] = d["name"], val
+        return group([t, group(self.expansion(d, val), "def-content")], "def-expand-group")
 
     def expansion(self, d, val):
         content = copy.deepcopy(d["content"])
